@@ -26,7 +26,7 @@
      model power p > MaxTotal \div 2 to MaxTotalVotingPower - (MaxTotal - p), which preserves
      every comparison against the bound; behaviours that contain such a power are marked
      exact = FALSE and only membership, powers and accept/reject are compared for them.  *)
-EXTENDS Integers, Sequences, FiniteSets, TLC, Json
+EXTENDS Integers, Sequences, FiniteSets, TLC, Json, SequencesExt
 
 CONSTANTS P,          \* pool size: validators are keys 1..P in address order
           InitSets,   \* set of power vectors over the pool (0 = not a member) for New
@@ -175,6 +175,17 @@ Next == IF FairOnly
         ELSE \/ \E pw \in InitSets : New(pw)
              \/ \E t \in Times : Incr(t)
              \/ \E ch \in ChangeLists : Update(ch)
+
+\* simulation: one random change list per step instead of all of them (TLC's simulator evaluates the
+\* invariants on every successor before it picks one)
+\* (the range depends on the state so that TLC does not evaluate the draw once as a constant; the
+\* drawn list is bound by \E so that every use in Update sees the same value)
+ChangeSeq == SetToSeq(ChangeLists)
+Draw == ChangeSeq[RandomElement(1..(IF made THEN Len(ChangeSeq) ELSE 1))]
+NextSim == \/ \E pw \in InitSets : New(pw)
+           \/ \E t \in Times : Incr(t)
+           \/ \E c \in {Draw} : Update(c)
+           \/ \E c \in {Draw} : Update(c)
 
 Spec == Init /\ [][Next]_<<vars, hist>>
 View == vars
